@@ -3,7 +3,11 @@
 package main
 
 import (
+	"context"
 	"fmt"
+	"github.com/herohde/morlock/pkg/engine"
+	"github.com/herohde/morlock/pkg/eval"
+	"github.com/herohde/morlock/pkg/search"
 	"math"
 	"os"
 	"strings"
@@ -258,7 +262,12 @@ func randomScript(c *caseCtx, zt *board.ZobristTable, zseed int64, f string, nop
 			} else {
 				s.push(pickMove(c, moves))
 			}
-		case r < 88:
+		case r < 87:
+			// read-only queries must not change what the board reports later (nothing to observe here)
+			_ = b.Position().IsChecked(b.Turn())
+			_ = b.Position().IsChecked(b.Turn().Opponent())
+			_ = b.Position().IsCheckMate(b.Turn())
+		case r < 89:
 			s.replay()
 		case r < 93:
 			if len(s.boards) < 4 {
@@ -294,6 +303,12 @@ func drawScripts(c *caseCtx, zt *board.ZobristTable, zseed int64) {
 		cyc := strings.Fields("g1f3 g8f6 f3g1 f6g8")
 		for k := 0; k < plies; k++ {
 			s.playStr(cyc[k%4])
+			if k == 3 {
+				// a fork taken here is queried (read-only) and dropped
+				f := s.cur().Fork()
+				_ = f.Position().IsChecked(f.Turn())
+				_ = f.Position().IsCheckMate(f.Turn())
+			}
 		}
 		s.replay()
 		s.pop()
@@ -382,7 +397,126 @@ func drawScripts(c *caseCtx, zt *board.ZobristTable, zseed int64) {
 	s.emit(c)
 }
 
+// engineNewGameChecks: a game set up on a used engine is a new game - what the engine's board reports
+// after each move depends on that game alone. The occurrences are counted here from the FENs the engine
+// prints (first four fields), from the set-up on.
+func engineNewGameChecks(c *caseCtx, prop string) {
+	ctx := context.Background()
+	n := 0
+	for _, start := range []string{fen.Initial, "r3k2r/pppq1ppp/2npbn2/2b1p3/2B1P3/2NPBN2/PPPQ1PPP/R3K2R w KQkq - 4 8", "3k4/8/3K4/8/8/8/8/R7 w - - 0 1"} {
+		for variant := 0; variant < 3; variant++ {
+			e := engine.New(ctx, "t", "t", search.AlphaBeta{Eval: search.Leaf{Eval: eval.Material{}}})
+			if err := e.Reset(ctx, start); err != nil {
+				continue
+			}
+			pos, turn, _, _, _ := fen.Decode(start)
+			cyc, ok := shuffleCycle(c, state{pos, turn})
+			if !ok {
+				if start == "3k4/8/3K4/8/8/8/8/R7 w - - 0 1" {
+					cyc = strings.Fields("a1a2 d8c8 a2a1 c8d8")
+				} else {
+					continue
+				}
+			}
+			for _, m := range cyc {
+				_ = e.Move(ctx, m)
+			}
+			// the new game: the position the engine is at, given as a FEN (verbatim / with fresh clocks / the start again)
+			f := e.Position()
+			switch variant {
+			case 1:
+				b := e.Board()
+				f = fen.Encode(b.Position(), b.Turn(), 0, 1)
+			case 2:
+				f = start
+			}
+			if err := e.Reset(ctx, f); err != nil {
+				continue
+			}
+			key := func(x string) string { return strings.Join(strings.Fields(x)[:4], " ") }
+			seen := map[string]int{key(e.Position()): 1}
+			n++
+			for k := 0; k < 12; k++ {
+				if err := e.Move(ctx, cyc[k%4]); err != nil {
+					break
+				}
+				kk := key(e.Position())
+				seen[kk]++
+				res := e.Board().Result()
+				drawn := res.Outcome == board.Draw
+				if seen[kk] >= 3 && !drawn {
+					fmt.Printf("IMPLVIOL enginegame start=%q newgame=%q moves=%d :: the position has occurred %d times in the new game but the board reports %v prop=%s key=engine-new-game\n", start, f, k+1, seen[kk], res, prop)
+					break
+				}
+				if seen[kk] < 3 && drawn && res.Reason != board.NoProgress && res.Reason != board.InsufficientMaterial {
+					fmt.Printf("IMPLVIOL enginegame start=%q newgame=%q moves=%d :: the position has occurred only %d times in the new game but the board reports %v prop=%s key=engine-new-game\n", start, f, k+1, seen[kk], res, prop)
+					break
+				}
+			}
+		}
+	}
+	fmt.Printf("COUNT enginegame %d\n", n)
+}
+
+// forkTwinChecks (C08): whatever is done on a fork - read-only queries, moves played and taken back - the
+// original goes on reporting exactly what a twin board that was never forked reports.
+func forkTwinChecks(c *caseCtx) {
+	zt := board.NewZobristTable(0)
+	n := 0
+	for _, start := range []string{fen.Initial, "r3k2r/pppq1ppp/2npbn2/2b1p3/2B1P3/2NPBN2/PPPQ1PPP/R3K2R w KQkq - 4 8", "3k4/8/3K4/8/8/8/8/R7 w - - 0 1"} {
+		pos, turn, np, fm, err := fen.Decode(start)
+		if err != nil {
+			continue
+		}
+		cyc, ok := shuffleCycle(c, state{pos, turn})
+		if !ok {
+			cyc = strings.Fields("a1a2 d8c8 a2a1 c8d8")
+		}
+		for forkAt := 0; forkAt <= 8; forkAt++ {
+			// each board gets a position object of its own (positions are shared by pointer along a history)
+			posA, _, _, _, _ := fen.Decode(start)
+			posB, _, _, _, _ := fen.Decode(start)
+			a := board.NewBoard(zt, posA, turn, np, fm)
+			b := board.NewBoard(zt, posB, turn, np, fm)
+			play := func(x *board.Board, str string) bool {
+				cand, _ := board.ParseMove(str)
+				for _, m := range x.Position().PseudoLegalMoves(x.Turn()) {
+					if cand.Equals(m) {
+						return x.PushMove(m)
+					}
+				}
+				return false
+			}
+			okAll := true
+			for k := 0; k < 12 && okAll; k++ {
+				if k == forkAt {
+					f := a.Fork()
+					_ = f.Position().IsChecked(f.Turn())
+					_ = f.Position().IsChecked(f.Turn().Opponent())
+					_ = f.Position().IsCheckMate(f.Turn())
+					_ = len(f.Position().LegalMoves(f.Turn()))
+					if ms := legalMoves(f.Position(), f.Turn()); len(ms) > 0 {
+						f.PushMove(ms[c.r.Intn(len(ms))])
+						_ = f.Position().IsChecked(f.Turn())
+						f.PopMove()
+					}
+					f.AdjudicateNoLegalMoves()
+				}
+				okAll = play(a, cyc[k%4]) && play(b, cyc[k%4])
+				n++
+				if oa, ob := boardObs(zt, a, true), boardObs(zt, b, true); oa != ob {
+					fmt.Printf("IMPLVIOL forktwin start=%q forkAt=%d ply=%d :: after work on a fork the original reports [%s], a twin that was never forked [%s] prop=C08 key=fork-changes-original\n", start, forkAt, k+1, oa, ob)
+					okAll = false
+				}
+			}
+		}
+	}
+	fmt.Printf("COUNT forktwin %d\n", n)
+}
+
 func casesGame(c *caseCtx) {
+	engineNewGameChecks(c, c.prop)
+	forkTwinChecks(c)
 	seeds := []int64{0, 1, c.r.Int63()}
 	for _, zs := range seeds {
 		zt := emitZKeys(c, zs)
